@@ -1,9 +1,9 @@
 (* JsExpr/StmtModel.v — executable model of the statement forms of parseStmt that are thin wrappers around
    parseExpression: block, var (identifier bindings), if / else, while (also rewritten to for with Options.WhileToFor),
-   do-while, for ( ; ; ) with an expression or var initialiser, throw, break / continue, debugger, with, try / catch / finally, labelled statements; expression and empty statements are those of Pratt.v
+   do-while, for ( ; ; ) with an expression or var initialiser, throw, break / continue, debugger, with, try / catch / finally, switch, labelled statements; expression and empty statements are those of Pratt.v
    ([parse_stmt]).  Every form ends with the tail of parseStmt ([skip_semi]): a ';' is taken on the same line, and after
    a line break when the statement is one that a ';' terminates (var, expression, do-while, break / continue, throw).
-   Not modelled ([OutFrag]): for-in / for-of / for await, switch, return (only inside functions), function / class declarations, let /
+   Not modelled ([OutFrag]): for-in / for-of / for await, return (only inside functions), function / class declarations, let /
    const declarations, import / export, binding patterns, yield / await as names; scopes (C04); the statement nesting
    limit (C01).  Definitions only. *)
 From Verif Require Import Common.Base Gen.PrattTable JsExpr.Syntax JsExpr.Pratt.
@@ -25,7 +25,8 @@ Inductive xstmt :=
 | XVar (l : list (list Z * option expr))
 | XDebugger
 | XWith (c : expr) (s : xstmt)
-| XTry (b : list xstmt) (c : option (option (list Z) * list xstmt)) (f : option (list xstmt)).   (* try b [catch [(n)] c] [finally f] *)
+| XTry (b : list xstmt) (c : option (option (list Z) * list xstmt)) (f : option (list xstmt))    (* try b [catch [(n)] c] [finally f] *)
+| XSwitch (e : expr) (cl : list (option expr * list xstmt)).                                     (* switch (e) { case x: l ... default: l } *)
 
 (* var a [= e] , b [= e] ...   after the `var`; bindings other than identifiers are outside the fragment *)
 Fixpoint parse_xvar (n : nat) (inf : bool) (ts : list token) (acc : list (list Z * option expr)) {struct n}
@@ -154,6 +155,22 @@ Definition for_arm (pstmt : list token -> res (xstmt * list token)) (plist : lis
              end ;;
   Ok (XFor i c p l, skip_semi false r8).
 
+(* the switch arm of parseStmt after the `switch`; pcl: the loop over the clauses after the '{' *)
+Definition switch_arm (pcl : list token -> res (list (option expr * list xstmt) * list token)) (rest : list token)
+  : res (xstmt * list token) :=
+  r1 <~ expect tt_OpenParenToken rest ;;
+  '(e, r2) <~ parse true prec_OpExpr r1 ;;
+  r3 <~ expect tt_CloseParenToken r2 ;;
+  r4 <~ expect tt_OpenBraceToken r3 ;;
+  '(cl, r5) <~ pcl r4 ;;
+  Ok (XSwitch e cl, skip_semi false r5).
+
+Definition ends_clause (ts : list token) : bool :=
+  match ts with
+  | k :: _ => (ty k =? tt_CaseToken) || (ty k =? tt_DefaultToken) || (ty k =? tt_CloseBraceToken)
+  | [] => true
+  end.
+
 Fixpoint parse_xstmt (n : nat) (w2f : bool) (ts : list token) {struct n} : res (xstmt * list token) :=
   match n with
   | O => NoFuel
@@ -200,6 +217,7 @@ Fixpoint parse_xstmt (n : nat) (w2f : bool) (ts : list token) {struct n} : res (
         '(s, r4) <~ parse_xstmt m w2f r3 ;;
         Ok (XWith c s, skip_semi false r4)
       else if ty k =? tt_TryToken then try_arm (fun ts' => parse_xlist m w2f ts' []) rest
+      else if ty k =? tt_SwitchToken then switch_arm (fun ts' => parse_xclauses m w2f ts' []) rest
       else if ty k =? tt_ThrowToken then
         match rest with
         | c :: _ => if lt c then Fail else '(e, r) <~ parse true prec_OpExpr rest ;; Ok (XThrow e, skip_semi true r)
@@ -231,6 +249,36 @@ with parse_xlist (n : nat) (w2f : bool) (ts : list token) (acc : list xstmt) {st
       if ty k =? tt_CloseBraceToken then Ok (rev acc, r)
       else '(s, r') <~ parse_xstmt m w2f ts ;; parse_xlist m w2f r' (s :: acc)
     end
+  end
+(* the clauses of a switch statement after its '{' *)
+with parse_xclauses (n : nat) (w2f : bool) (ts : list token) (acc : list (option expr * list xstmt)) {struct n}
+  : res (list (option expr * list xstmt) * list token) :=
+  match n with
+  | O => NoFuel
+  | S m =>
+    match ts with
+    | [] => Fail
+    | k :: r =>
+      if ty k =? tt_CloseBraceToken then Ok (rev acc, r)
+      else if ty k =? tt_CaseToken then
+        '(e, r1) <~ parse true prec_OpExpr r ;;
+        r2 <~ expect tt_ColonToken r1 ;;
+        '(l, r3) <~ parse_xcstmts m w2f r2 [] ;;
+        parse_xclauses m w2f r3 ((Some e, l) :: acc)
+      else if ty k =? tt_DefaultToken then
+        r2 <~ expect tt_ColonToken r ;;
+        '(l, r3) <~ parse_xcstmts m w2f r2 [] ;;
+        parse_xclauses m w2f r3 ((None, l) :: acc)
+      else Fail
+    end
+  end
+(* the statements of a clause: up to the next case / default / '}' *)
+with parse_xcstmts (n : nat) (w2f : bool) (ts : list token) (acc : list xstmt) {struct n} : res (list xstmt * list token) :=
+  match n with
+  | O => NoFuel
+  | S m =>
+    if ends_clause ts then Ok (rev acc, ts)
+    else '(s, r) <~ parse_xstmt m w2f ts ;; parse_xcstmts m w2f r (s :: acc)
   end.
 
 Fixpoint parse_xmodule (n : nat) (w2f : bool) (ts : list token) (acc : list xstmt) {struct n} : res (list xstmt) :=
@@ -287,4 +335,10 @@ Fixpoint show_xstmt (s : xstmt) : list Z :=
       | None => []
       end ++
       match f with Some l => [32; 102; 105; 110; 97; 108; 108; 121; 32] ++ block l | None => [] end ++ [41]
+  | XSwitch e cl =>
+      s_stmt ++ [40; 115; 119; 105; 116; 99; 104; 32] ++ show e ++
+      concat (map (fun c : option expr * list xstmt =>
+                     [32; 67; 108; 97; 117; 115; 101; 40] ++
+                     match fst c with Some x => [99; 97; 115; 101; 32] ++ show x | None => [100; 101; 102; 97; 117; 108; 116] end ++
+                     join_sp (map show_xstmt (snd c)) ++ [41]) cl) ++ [41]
   end.
